@@ -333,8 +333,10 @@ impl<'a> ListStylist<'a> {
                         Item::Comment(cmt) => inner += cmt + arena.hardline(),
                         Item::Commented { body, after } => {
                             seen_real_items += 1;
+                            // An attached line comment must not swallow the closing delimiter.
+                            let ends_with_comment = self.has_line_comment && after.is_some();
                             inner += body + sep.clone() + after;
-                            if !sty.tight_delim || !is_last {
+                            if !sty.tight_delim || !is_last || ends_with_comment {
                                 inner += arena.hardline();
                             }
                         }
